@@ -90,8 +90,20 @@ def check(ck, F, rule, prefixes, floor):
         for var, roots in sorted(ref.items()):
             if var not in cur:
                 continue
-            lost = [r for r in roots if r not in cur[var] and r.split(".")[0] in pn
-                    and not any(c == r.split(".")[0] or c.startswith(r + ".") or r.startswith(c + ".") for c in cur[var])]
+            lost = []
+            for r in roots:
+                base = r.split(".")[0]
+                if r in cur[var] or base not in pn:
+                    continue
+                if "." in r:
+                    # a field of a parameter: if the parameter is now read as a whole where it was not before, the granularity changed: not comparable
+                    if base in cur[var] and base not in roots:
+                        continue
+                else:
+                    # the whole parameter: still influencing through (some of) its fields
+                    if any(c.startswith(r + ".") for c in cur[var]):
+                        continue
+                lost.append(r)
             key = "%s#%s" % (fid, var)
             if lost:
                 ck.bad(rule, key, "in %s the value `%s` no longer depends on %s (reference tree: %s; now: %s): an operand was dropped from the computation or the condition that "
